@@ -202,6 +202,45 @@ def check_net(ctx, root, ncols, rs, cap, tag, hist=None):
     return len(X)
 
 
+def subclass_stream(ctx):
+    """circuits whose inner nodes are instances of USER SUBCLASSES of Sum / Product (own EM step, own bookkeeping): a sum node is a
+    sum node for every query — the value is the circuit's semantics over its parameters (`S.ref_value`), equal to what the same
+    circuit built from the base classes returns"""
+    from harness.c03 import subclassed
+    from deeprob.spn.algorithms.inference import mpe as _mpe
+    quick = ctx.tier == 'quick'
+    for k in range(12 if quick else 150):
+        rs = np.random.RandomState(np_seed(ctx.sub_rng('subclass', k)))
+        nv = int(rs.randint(2, 5))
+        root = S.rand_spn(rs, list(range(nv)), depth=int(rs.randint(1, 4)), kinds=('bern', 'cat'), share=0.4, clt=(k % 3 == 0))
+        if not getattr(root, 'children', None):
+            continue
+        assign_ids(root)
+        sub = subclassed(root)
+        table, order, _, _ = S.export_net(root)
+        dom = S.domain_of(order)
+        X = np.stack([rs.randint(max(d, 1), size=8) for d in dom], axis=1).astype(np.float32)
+        X[4:][rs.rand(4, X.shape[1]) < 0.4] = np.nan
+        ctx.count('user-subclass-circuits')
+        ctx.case('subclass', nontrivial_key=('subclass', k), sample=dict(nodes=len(table)))
+        rep = dict(kind='c01-subclass', table=table_with_py(table, order), rows=np.where(np.isnan(X), None, X).tolist())
+        try:
+            a = np.asarray(log_likelihood(sub, X), dtype=np.float64).reshape(-1)
+            la = np.asarray(likelihood(sub, X), dtype=np.float64).reshape(-1)
+        except Exception as ex:
+            ctx.violation(f'c01-subclass-raises:{type(ex).__name__}', f'log_likelihood raised {type(ex).__name__}: {str(ex)[:160]} on a valid circuit whose inner nodes are '
+                          f'instances of user subclasses of Sum / Product', replay=rep)
+            continue
+        for r in range(len(X)):
+            ref = S.ref_value(root, X[r].astype(np.float64))
+            if abs(sexp(a[r]) - ref) > 1e-6 + 2e-4 * ref or abs(la[r] - ref) > 1e-6 + 2e-4 * ref:
+                ctx.violation('c01-subclass-value', f'circuit with user-subclass inner nodes: log_likelihood {a[r]!r} / likelihood {la[r]!r} but the circuit over its '
+                              f'parameters has value {ref!r} at {[None if np.isnan(t) else float(t) for t in X[r]]}', replay=rep)
+                break
+        if ctx.n_new(with_input_only=True) >= 3:
+            return
+
+
 def special_streams(ctx):
     """(a) double-precision inputs that are not single-precision numbers, placed where the density is sensitive to the last bits
     (closed support edges of Uniform leaves, one ulp beside a histogram break, narrow Gaussians far from the origin): the query is
@@ -328,6 +367,8 @@ def run(ctx):
             break
     if ctx.n_new(with_input_only=True) == 0:
         special_streams(ctx)
+    if ctx.n_new(with_input_only=True) == 0:
+        subclass_stream(ctx)
     ctx.notes.append('total mass is not enumerated by the model: it is evalNet with nothing observed, equal to the enumerated '
                      'sum by Circ.marg / C01_normalised; the implementation side is enumerated when the discrete domain is small')
 
@@ -355,6 +396,16 @@ def replay(rep):
     X = np.array(r['rows'], dtype=np.float64 if r.get('dtype') == 'float64' else np.float32)
     if X.size == 0:
         return True
+    if r.get('kind') == 'c01-subclass':
+        from harness.c03 import subclassed
+        sub = subclassed(root)
+        ll = np.asarray(log_likelihood(sub, X), dtype=np.float64).reshape(-1)
+        oks = True
+        for rr in range(len(X)):
+            ref = S.ref_value(root, X[rr].astype(np.float64))
+            print(f'row {X[rr].tolist()}: log_likelihood {float(ll[rr])} (value {sexp(ll[rr])}), circuit over its parameters {ref}')
+            oks = oks and abs(sexp(ll[rr]) - ref) <= 1e-6 + 2e-4 * ref
+        return bool(oks)
     if r.get('kind') == 'c01-special':
         ll = np.asarray(log_likelihood(root, X), dtype=np.float64).reshape(-1)
         okk = True
